@@ -1,6 +1,8 @@
 import XdocModel.Directive
 import XdocModel.Example
 import XdocModel.Lemmas.Example
+import XdocModel.Parser
+import XdocModel.Lemmas.Lexer
 /-!
 # C04 — Directive scoping: block persists, inline is local, skipped code never runs
 
@@ -228,5 +230,444 @@ example : ((RState.init []).update (fun _ => some false)
 example : (((RState.init []).update (fun _ => some false)
     [{ name := "REQUIRES", args := ["--x".toList], inline := true }]).bind
       (·.update (fun _ => some false) [])).map (·.skips) = some false := by decide +kernel
+
+end Xdoc.C04
+
+/-!
+# C04, clause "directive-looking text inside string literals is not a directive"
+
+Directives are looked for in the COMMENT tokens only (`Directive.extract` → `extract_comments` →
+the tokenizer). At the level of the mini-lexer, for ALL strings: the fuel of the scanner is not
+observable; a closed string literal is skipped whatever its body, so that a `#` inside it never
+starts the comment of the line; the comment is a suffix of the line; hence a source line whose
+only `#` sit inside a string literal carries no comment and no directive.
+
+Two hypotheses that cannot be dropped (counterexamples are given as `example`s below):
+* the body of a single-quoted literal is empty only if the text after it does not start with the
+  same quote (`''` followed by `'` opens a triple-quoted string);
+* the quote is closed: an unterminated single quote is a lone error token and the text after it is
+  scanned as code (so `x = '# a` does carry the comment `# a`, in the real tokenizer as well).
+-/
+namespace Xdoc.C04
+open Xdoc Py Lexer Parser
+
+/-- ★ (1) the fuel of the scanner is not observable -/
+theorem scan_fuel_irrelevant (fuel : Nat) (p : Int) (semi : Bool) (s : Str) (h : s.length ≤ fuel) :
+    scanCode fuel p semi s = scanCode s.length p semi s :=
+  scanCode_fuel_irrelevant fuel p semi s h
+
+/-- plain code (no quote, no `#`): the scan is the bracket count and the search for a `;` -/
+theorem scan_plain (p : Int) (pre : Str) (hpre : Plain pre) :
+    scan p pre = { paren := depthAfter p pre, semicolon := pre.contains ';' } := by
+  rw [scan_eq_scanS, scanS_plain _ _ _ hpre]; simp
+
+/-- the scanner composes over a plain prefix (it reaches the end of `pre` at a token boundary) -/
+theorem scan_plain_append (p : Int) (pre rest : Str) (hpre : Plain pre) :
+    scan p (pre ++ rest) = withSemi (scan p pre).semicolon (scan (scan p pre).paren rest) := by
+  simp only [scan_eq_scanS]
+  rw [scanS_plain_append _ _ _ _ hpre, scanS_plain _ _ _ hpre]
+  simp only [Bool.false_or]
+  exact scanS_semi _ _ _
+
+/-- whatever closes as a single-quoted string is skipped as a whole -/
+theorem scan_skips_single (p : Int) (pre s r : Str) (q : Char) (hpre : Plain pre) (hq : IsQuote q)
+    (hc : closeSingle q s = some r) (hnt : ∀ t, s ≠ q :: q :: t) :
+    scan p (pre ++ q :: s) = withSemi (scan p pre).semicolon (scan (scan p pre).paren r) := by
+  rw [scan_plain_append _ _ _ hpre]
+  simp only [scan_eq_scanS]
+  rw [scanS_single _ _ hq hc hnt]
+
+/-- whatever closes as a triple-quoted string on the same line is skipped as a whole -/
+theorem scan_skips_triple (p : Int) (pre s r : Str) (q : Char) (hpre : Plain pre) (hq : IsQuote q)
+    (hc : closeTriple q s = some r) :
+    scan p (pre ++ q :: q :: q :: s) =
+      withSemi (scan p pre).semicolon (scan (scan p pre).paren r) := by
+  rw [scan_plain_append _ _ _ hpre]
+  simp only [scan_eq_scanS]
+  rw [scanS_triple _ _ hq hc]
+
+theorem singleBody_not_triple {q : Char} (hq : IsQuote q) {body post : Str} (hb : SingleBody q body)
+    (hnt : body = [] → post.head? ≠ some q) : ∀ t, body ++ q :: post ≠ q :: q :: t := by
+  intro t h
+  cases body with
+  | nil =>
+    simp only [List.nil_append, List.cons.injEq, true_and] at h
+    exact hnt rfl (by simp [h])
+  | cons c b =>
+    simp only [List.cons_append, List.cons.injEq] at h
+    exact hb.head_ne hq.ne_backslash (by simp [h.1])
+
+/-- ★ (2) `string_literal_is_not_comment`, one line, single-quoted: the line
+    `pre 'body' post` is scanned as `pre` followed by `post` — the comment of the line is the
+    comment found in `post` at the depth reached after `pre`; a `#` inside `body` never starts it -/
+theorem string_literal_is_not_comment (p : Int) (pre body post : Str) (q : Char)
+    (hpre : Plain pre) (hq : IsQuote q) (hb : SingleBody q body)
+    (hnt : body = [] → post.head? ≠ some q) :
+    (scan p (pre ++ q :: (body ++ q :: post))).comment = (scan (scan p pre).paren post).comment ∧
+    (scan p (pre ++ q :: (body ++ q :: post))).paren = (scan (scan p pre).paren post).paren ∧
+    (scan p (pre ++ q :: (body ++ q :: post))).openStr = (scan (scan p pre).paren post).openStr ∧
+    (scan p (pre ++ q :: (body ++ q :: post))).semicolon =
+      ((scan p pre).semicolon || (scan (scan p pre).paren post).semicolon) := by
+  rw [scan_skips_single p pre _ post q hpre hq (closeSingle_body hq.ne_backslash hb post)
+    (singleBody_not_triple hq hb hnt)]
+  exact ⟨rfl, rfl, rfl, rfl⟩
+
+/-- ★ (2') the same for a triple-quoted literal closed on the line -/
+theorem triple_literal_is_not_comment (p : Int) (pre body post : Str) (q : Char)
+    (hpre : Plain pre) (hq : IsQuote q) (hb : TripleBody q body) :
+    (scan p (pre ++ q :: q :: q :: (body ++ q :: q :: q :: post))).comment
+      = (scan (scan p pre).paren post).comment ∧
+    (scan p (pre ++ q :: q :: q :: (body ++ q :: q :: q :: post))).paren
+      = (scan (scan p pre).paren post).paren ∧
+    (scan p (pre ++ q :: q :: q :: (body ++ q :: q :: q :: post))).openStr
+      = (scan (scan p pre).paren post).openStr ∧
+    (scan p (pre ++ q :: q :: q :: (body ++ q :: q :: q :: post))).semicolon =
+      ((scan p pre).semicolon || (scan (scan p pre).paren post).semicolon) := by
+  rw [scan_skips_triple p pre _ post q hpre hq (closeTriple_body hq.ne_backslash hb post)]
+  exact ⟨rfl, rfl, rfl, rfl⟩
+
+/-- ★ (3) `comment_is_suffix`: the comment of a line is a suffix of it and starts with `#` -/
+theorem comment_is_suffix (p : Int) (s c : Str) (h : (scan p s).comment = some c) :
+    ∃ a, s = a ++ c ∧ c.head? = some '#' := by
+  obtain ⟨⟨a, ha⟩, h2⟩ := scanCode_comment _ _ _ _ _ h
+  exact ⟨a, ha.symm, h2⟩
+
+/-- (2)+(3): the comment of `pre 'body' post` lies wholly after the literal -/
+theorem comment_lies_after_literal (p : Int) (pre body post c : Str) (q : Char)
+    (hpre : Plain pre) (hq : IsQuote q) (hb : SingleBody q body)
+    (hnt : body = [] → post.head? ≠ some q)
+    (h : (scan p (pre ++ q :: (body ++ q :: post))).comment = some c) :
+    ∃ a, post = a ++ c ∧ c.head? = some '#' := by
+  rw [(string_literal_is_not_comment p pre body post q hpre hq hb hnt).1] at h
+  exact comment_is_suffix _ _ _ h
+
+/-- ★ (4a) a one-line source: `extract_comments` is one scan at depth 0 (indentation included) -/
+theorem extractComments_single_line (l : Str) :
+    extractComments [l] = some (scan 0 l).comment.toList := by
+  obtain ⟨h1, h2, _⟩ := lex_single l
+  unfold extractComments
+  rcases hl : lex [l] with ⟨st, e⟩
+  rw [hl] at h1 h2
+  simp only at h1 h2
+  have hne : e ≠ .badDedent := by
+    rw [h1]; unfold Lexer.endOf
+    split
+    · simp
+    · split <;> simp
+  cases e <;> simp_all
+
+/-- `is_balanced_statement` of a one-line source -/
+theorem isBalanced_single_line (l : Str) :
+    isBalanced [l] = ((scan 0 l).openStr.isNone && (scan 0 l).paren == 0) := by
+  obtain ⟨h1, _, _⟩ := lex_single l
+  unfold isBalanced
+  rw [h1]; unfold Lexer.endOf
+  cases (scan 0 l).openStr <;> simp
+  split
+  · rename_i h
+    rw [show (LexEnd.ok == LexEnd.ok) = true from by decide]; simp [h]
+  · rename_i h
+    rw [show (LexEnd.eofStatement == LexEnd.ok) = false from by decide]; simp [h]
+
+/-- ★ (4b) the comments of the source line `pre 'body' post` do not depend on `body` -/
+theorem extractComments_string_literal (pre body post : Str) (q : Char)
+    (hpre : Plain pre) (hq : IsQuote q) (hb : SingleBody q body)
+    (hnt : body = [] → post.head? ≠ some q) :
+    extractComments [pre ++ q :: (body ++ q :: post)]
+      = some (scan (scan 0 pre).paren post).comment.toList := by
+  rw [extractComments_single_line, (string_literal_is_not_comment 0 pre body post q hpre hq hb hnt).1]
+
+/-- ★ (4c) a source line whose only `#` are inside a string literal has no comment … -/
+theorem no_comment_in_string_literal (pre body post : Str) (q : Char)
+    (hpre : Plain pre) (hq : IsQuote q) (hb : SingleBody q body) (hpost : Plain post) :
+    extractComments [pre ++ q :: (body ++ q :: post)] = some [] := by
+  have hnt : body = [] → post.head? ≠ some q := by
+    intro _ h
+    cases post with
+    | nil => simp at h
+    | cons c t =>
+      simp only [List.head?_cons, Option.some.injEq] at h
+      subst h
+      have := (plain_cons.mp hpost).1
+      rcases hq with rfl | rfl
+      · exact this.1 rfl
+      · exact this.2.1 rfl
+  rw [extractComments_string_literal pre body post q hpre hq hb hnt, scan_eq_scanS,
+    (scanS_plain_comment _ _ _ hpost).1]
+  rfl
+
+/-- ★ (4d) … hence no directive: `Directive.extract` of that line is empty whatever the body of
+    the literal is, `# xdoctest: +SKIP` included -/
+theorem no_directive_in_string_literal (pre body post : Str) (q : Char)
+    (hpre : Plain pre) (hq : IsQuote q) (hb : SingleBody q body) (hpost : Plain post) :
+    extractDirectives [pre ++ q :: (body ++ q :: post)] = .ok [] := by
+  unfold extractDirectives
+  simp only [no_comment_in_string_literal pre body post q hpre hq hb hpost]
+  rfl
+
+/-- ★ (4e) the directives of the source line `pre 'body' post` do not depend on `body`: whatever
+    is written inside the string literal, the directives are those of the real comment in `post`
+    (here `post` is arbitrary: it may hold a real `# xdoctest: …` comment) -/
+theorem directives_ignore_string_body (pre body body' post : Str) (q : Char)
+    (hpre : Plain pre) (hq : IsQuote q) (hb : SingleBody q body) (hb' : SingleBody q body')
+    (hnt : body = [] → post.head? ≠ some q) (hnt' : body' = [] → post.head? ≠ some q) :
+    extractDirectives [pre ++ q :: (body ++ q :: post)]
+      = extractDirectives [pre ++ q :: (body' ++ q :: post)] := by
+  have h1 := extractComments_string_literal pre body post q hpre hq hb hnt
+  have h2 := extractComments_string_literal pre body' post q hpre hq hb' hnt'
+  have s1 := strip_not_hash pre q (body ++ q :: post) hpre hq.not_space hq.ne_hash
+  have s2 := strip_not_hash pre q (body' ++ q :: post) hpre hq.not_space hq.ne_hash
+  have g1 : ([pre ++ q :: (body ++ q :: post)].getLast? == some []) = false := by simp
+  have g2 : ([pre ++ q :: (body' ++ q :: post)].getLast? == some []) = false := by simp
+  unfold extractDirectives
+  simp only [h1, h2, g1, g2, Bool.false_eq_true, ↓reduceIte, List.all_cons, List.all_nil, s1, s2,
+    Bool.and_true]
+
+/-- a `;` inside a string literal is not a statement separator -/
+theorem semicolon_in_string_literal (pre body post : Str) (q : Char)
+    (hpre : Plain pre) (hq : IsQuote q) (hb : SingleBody q body)
+    (hnt : body = [] → post.head? ≠ some q) :
+    hasSemicolon [pre ++ q :: (body ++ q :: post)]
+      = ((scan 0 pre).semicolon || (scan (scan 0 pre).paren post).semicolon) := by
+  unfold hasSemicolon
+  rw [(lex_single _).2.2, (string_literal_is_not_comment 0 pre body post q hpre hq hb hnt).2.2.2]
+
+/-- brackets and quotes inside a string literal do not count for `is_balanced_statement` -/
+theorem brackets_in_string_literal (pre body post : Str) (q : Char)
+    (hpre : Plain pre) (hq : IsQuote q) (hb : SingleBody q body)
+    (hnt : body = [] → post.head? ≠ some q) :
+    isBalanced [pre ++ q :: (body ++ q :: post)]
+      = ((scan (scan 0 pre).paren post).openStr.isNone && (scan (scan 0 pre).paren post).paren == 0) := by
+  obtain ⟨_, h2, h3, _⟩ := string_literal_is_not_comment 0 pre body post q hpre hq hb hnt
+  rw [isBalanced_single_line, h2, h3]
+
+/-! ### the same in ANY context: lines before, lines after, any bracket depth -/
+
+/-- `q :: s` starts with a string literal closed on the line, `post` is the text after it:
+    single-quoted (`s` = body, quote, post — not the start of a triple quote) or triple-quoted -/
+def Lit (q : Char) (s post : Str) : Prop :=
+  (closeSingle q s = some post ∧ ∀ t, s ≠ q :: q :: t) ∨
+  (∃ s', s = q :: q :: s' ∧ closeTriple q s' = some post)
+
+theorem Lit.single {q : Char} (hq : IsQuote q) {body post : Str} (hb : SingleBody q body)
+    (hnt : body = [] → post.head? ≠ some q) : Lit q (body ++ q :: post) post :=
+  Or.inl ⟨closeSingle_body hq.ne_backslash hb post, singleBody_not_triple hq hb hnt⟩
+
+theorem Lit.triple {q : Char} (hq : IsQuote q) {body : Str} (hb : TripleBody q body) (post : Str) :
+    Lit q (q :: q :: (body ++ q :: q :: q :: post)) post :=
+  Or.inr ⟨_, rfl, closeTriple_body hq.ne_backslash hb post⟩
+
+/-- a closed literal is skipped as a whole -/
+theorem scan_skips_literal (p : Int) (pre s post : Str) (q : Char) (hpre : Plain pre)
+    (hq : IsQuote q) (hl : Lit q s post) :
+    scan p (pre ++ q :: s) = withSemi (scan p pre).semicolon (scan (scan p pre).paren post) := by
+  rcases hl with ⟨h1, h2⟩ | ⟨s', rfl, h⟩
+  · exact scan_skips_single p pre s post q hpre hq h1 h2
+  · exact scan_skips_triple p pre s' post q hpre hq h
+
+/-- one step of the tokenizer loop, from any state without an open triple-quoted string (any
+    bracket depth, any indentation stack): the body of the literal is not observable -/
+theorem lexGo_ignores_string_body (st : LexState) (hopen : st.openStr = none) (ls : List Str)
+    (pre s s' post : Str) (q : Char) (hpre : Plain pre) (hq : IsQuote q)
+    (hl : Lit q s post) (hl' : Lit q s' post) :
+    lexGo st ((pre ++ q :: s) :: ls) = lexGo st ((pre ++ q :: s') :: ls) := by
+  have key : ∀ (p : Int) (pre : Str), Plain pre → scan p (pre ++ q :: s) = scan p (pre ++ q :: s') :=
+    fun p pre hpre => by
+      rw [scan_skips_literal p pre s post q hpre hq hl, scan_skips_literal p pre s' post q hpre hq hl']
+  rw [lexGo, lexGo]
+  simp only [hopen]
+  cases hp : (st.paren == 0) with
+  | false =>
+    simp only [Bool.false_eq_true, ↓reduceIte]
+    rw [key st.paren pre hpre]
+  | true =>
+    obtain ⟨col', pre', hpl, hmi⟩ := measureIndent_plain_split 0 pre q hpre hq.not_indent
+    have hsc := key 0 pre' hpl
+    simp only [↓reduceIte, hmi]
+    cases pre' with
+    | nil =>
+      have hh : (q == '#') = false := by simpa using hq.ne_hash
+      simp only [List.nil_append] at hsc ⊢
+      simp only [hh, Bool.false_eq_true, ↓reduceIte, hsc]
+    | cons c t =>
+      have hh : (c == '#') = false := by simpa using (plain_cons.mp hpl).1.2.2
+      simp only [List.cons_append] at hsc ⊢
+      simp only [hh, Bool.false_eq_true, ↓reduceIte, hsc]
+
+/-- ★ (4f) whole sources: in a source of any number of lines, on a line that is reached with no
+    triple-quoted string open, the body of a closed string literal preceded by plain code is not
+    observable by the tokenizer loop: same comments, same end, same `;` flag -/
+theorem lex_ignores_string_body (before after : List Str) (pre s s' post : Str) (q : Char)
+    (hopen : (lex before).1.openStr = none) (hpre : Plain pre) (hq : IsQuote q)
+    (hl : Lit q s post) (hl' : Lit q s' post) :
+    lex (before ++ (pre ++ q :: s) :: after) = lex (before ++ (pre ++ q :: s') :: after) := by
+  unfold lex at *
+  have hf : ∀ X : Str, (before ++ (pre ++ q :: X) :: after).filter (!·.isEmpty)
+      = before.filter (!·.isEmpty) ++ (pre ++ q :: X) :: after.filter (!·.isEmpty) := by
+    intro X; simp
+  rw [hf, hf]
+  rcases lexGo_append {} (before.filter (!·.isEmpty)) with h | h
+  · rw [h, h]
+  · rw [h, h]
+    exact lexGo_ignores_string_body _ hopen _ pre s s' post q hpre hq hl hl'
+
+theorem extractComments_ignores_string_body (before after : List Str) (pre s s' post : Str)
+    (q : Char) (hopen : (lex before).1.openStr = none) (hpre : Plain pre) (hq : IsQuote q)
+    (hl : Lit q s post) (hl' : Lit q s' post) :
+    extractComments (before ++ (pre ++ q :: s) :: after)
+      = extractComments (before ++ (pre ++ q :: s') :: after) := by
+  unfold extractComments
+  rw [lex_ignores_string_body before after pre s s' post q hopen hpre hq hl hl']
+
+theorem isBalanced_ignores_string_body (before after : List Str) (pre s s' post : Str)
+    (q : Char) (hopen : (lex before).1.openStr = none) (hpre : Plain pre) (hq : IsQuote q)
+    (hl : Lit q s post) (hl' : Lit q s' post) :
+    isBalanced (before ++ (pre ++ q :: s) :: after)
+      = isBalanced (before ++ (pre ++ q :: s') :: after) := by
+  unfold isBalanced
+  rw [lex_ignores_string_body before after pre s s' post q hopen hpre hq hl hl']
+
+theorem hasSemicolon_ignores_string_body (before after : List Str) (pre s s' post : Str)
+    (q : Char) (hopen : (lex before).1.openStr = none) (hpre : Plain pre) (hq : IsQuote q)
+    (hl : Lit q s post) (hl' : Lit q s' post) :
+    hasSemicolon (before ++ (pre ++ q :: s) :: after)
+      = hasSemicolon (before ++ (pre ++ q :: s') :: after) := by
+  unfold hasSemicolon
+  rw [lex_ignores_string_body before after pre s s' post q hopen hpre hq hl hl']
+
+theorem textLines_not_all_comment (before after : List Str) (l : Str) (hl : l ≠ [])
+    (hf : startsWith ['#'] (strip l) = false) :
+    ((if (before ++ l :: after).getLast? == some [] then (before ++ l :: after).dropLast
+      else before ++ l :: after).all fun l => startsWith ['#'] (strip l)) = false := by
+  split
+  · rename_i h
+    cases after with
+    | nil => simp [hl] at h
+    | cons a as =>
+      rw [List.dropLast_append_of_ne_nil (by simp), List.dropLast_cons_of_ne_nil (by simp)]
+      simp [hf]
+  · simp [hf]
+
+/-- ★ (4g) `Directive.extract` of a group of lines does not depend on the body of a closed string
+    literal in it (same side conditions as (4f)): directive-looking text inside a string literal is
+    not a directive, and it does not hide or alter the real directives around it -/
+theorem directives_ignore_literal_anywhere (before after : List Str) (pre s s' post : Str)
+    (q : Char) (hopen : (lex before).1.openStr = none) (hpre : Plain pre) (hq : IsQuote q)
+    (hl : Lit q s post) (hl' : Lit q s' post) :
+    extractDirectives (before ++ (pre ++ q :: s) :: after)
+      = extractDirectives (before ++ (pre ++ q :: s') :: after) := by
+  have hc := extractComments_ignores_string_body before after pre s s' post q hopen hpre hq hl hl'
+  have t1 := textLines_not_all_comment before after (pre ++ q :: s) (by simp)
+    (strip_not_hash pre q s hpre hq.not_space hq.ne_hash)
+  have t2 := textLines_not_all_comment before after (pre ++ q :: s') (by simp)
+    (strip_not_hash pre q s' hpre hq.not_space hq.ne_hash)
+  unfold extractDirectives
+  simp only [hc, t1, t2]
+
+/-- (4g) spelled out for two single-quoted bodies -/
+theorem directives_ignore_string_body_anywhere (before after : List Str)
+    (pre body body' post : Str) (q : Char) (hopen : (lex before).1.openStr = none)
+    (hpre : Plain pre) (hq : IsQuote q) (hb : SingleBody q body) (hb' : SingleBody q body')
+    (hnt : body = [] → post.head? ≠ some q) (hnt' : body' = [] → post.head? ≠ some q) :
+    extractDirectives (before ++ (pre ++ q :: (body ++ q :: post)) :: after)
+      = extractDirectives (before ++ (pre ++ q :: (body' ++ q :: post)) :: after) :=
+  directives_ignore_literal_anywhere before after pre _ _ post q hopen hpre hq
+    (Lit.single hq hb hnt) (Lit.single hq hb' hnt')
+
+/-- (4g) spelled out for two triple-quoted bodies closed on the line -/
+theorem directives_ignore_triple_body_anywhere (before after : List Str)
+    (pre body body' post : Str) (q : Char) (hopen : (lex before).1.openStr = none)
+    (hpre : Plain pre) (hq : IsQuote q) (hb : TripleBody q body) (hb' : TripleBody q body') :
+    extractDirectives (before ++ (pre ++ q :: q :: q :: (body ++ q :: q :: q :: post)) :: after)
+      = extractDirectives (before ++ (pre ++ q :: q :: q :: (body' ++ q :: q :: q :: post)) :: after) :=
+  directives_ignore_literal_anywhere before after pre _ _ post q hopen hpre hq
+    (Lit.triple hq hb post) (Lit.triple hq hb' post)
+
+/-- ★ (5) a triple-quoted string over several lines: the lines inside it are not looked at, so a
+    `#` there is not a comment; the comments of the statement are those after the closing quotes.
+    `closeTriple q m = none` holds in particular for every line without the quote character
+    (`closeTriple_none_of_not_mem`). Empty lines may occur anywhere in `mids`. -/
+theorem multiline_string_is_not_comment (pre b0 last post : Str) (mids : List Str) (q : Char)
+    (hpre : Plain pre) (hq : IsQuote q) (h0 : closeTriple q b0 = none)
+    (hm : ∀ m ∈ mids, closeTriple q m = none) (hl : closeTriple q last = some post) :
+    extractComments ((pre ++ q :: q :: q :: b0) :: (mids ++ [last]))
+      = some (scan (scan 0 pre).paren post).comment.toList := by
+  have hlast : last ≠ [] := by intro h; subst h; simp [closeTriple] at hl
+  have hf : ((pre ++ q :: q :: q :: b0) :: (mids ++ [last])).filter (!·.isEmpty)
+      = (pre ++ q :: q :: q :: b0) :: (mids.filter (!·.isEmpty) ++ [last]) := by
+    simp [hlast]
+  obtain ⟨c, r, hmi, hc⟩ := measureIndent_plain_prefix 0 pre q (q :: q :: b0) hpre hq.not_indent
+    hq.ne_hash
+  obtain ⟨ind, hfirst⟩ := lexGo_first (pre ++ q :: q :: q :: b0) (mids.filter (!·.isEmpty) ++ [last])
+    c r hmi hc
+  have hs : scan 0 (pre ++ q :: q :: q :: b0)
+      = { paren := (scan 0 pre).paren, semicolon := (scan 0 pre).semicolon, openStr := some q } := by
+    rw [scan_plain_append _ _ _ hpre]
+    simp only [scan_eq_scanS]
+    rw [scanS_triple_open _ _ hq h0]
+    simp [withSemi]
+  unfold extractComments lex
+  rw [hf, hfirst, hs]
+  rw [lexGo_open_skip _ q rfl _ _ (fun m hm' => hm m (List.mem_filter.mp hm').1)]
+  rw [lexGo_open_close _ q rfl _ _ _ hl]
+  obtain ⟨h1, h2⟩ := lexGo_nil_comments
+    (applyScan { applyScan ({ indents := ind } : LexState)
+        { paren := (scan 0 pre).paren, semicolon := (scan 0 pre).semicolon, openStr := some q }
+      with openStr := none }
+      (scan (applyScan ({ indents := ind } : LexState)
+        { paren := (scan 0 pre).paren, semicolon := (scan 0 pre).semicolon, openStr := some q }).paren
+        post))
+  revert h1 h2
+  generalize lexGo _ [] = res
+  obtain ⟨st', e⟩ := res
+  intro h1 h2
+  simp only at h1 h2
+  subst h1
+  cases e <;> first | exact absurd rfl h2 | (simp [applyScan]; cases (scan (scan 0 pre).paren post).comment <;> rfl)
+
+/-! ### non-vacuity, and why the side conditions are needed -/
+
+-- the hypotheses of (2)–(4) on `x = '# xdoctest: +SKIP'`
+example : Plain "x = ".toList := by decide
+example : IsQuote '\'' := by decide
+example : SingleBody '\'' "# xdoctest: +SKIP".toList := by
+  repeat (first | exact .nil | refine .char _ _ (by decide) (by decide) ?_)
+example : SingleBody '"' "a \\\" # b".toList := by
+  repeat (first | exact .nil | refine .esc _ _ ?_ | refine .char _ _ (by decide) (by decide) ?_)
+example : TripleBody '"' "a \" # \"\" b".toList := by
+  repeat (first | exact .nil | refine .char _ _ (by decide) (by decide) ?_
+                | refine .two _ _ (by decide) ?_ | refine .one _ _ (by decide) ?_)
+-- the conclusion of (4d) on that line, and the contrast: the same text as a real comment
+example : (extractDirectives ["x = '# xdoctest: +SKIP'".toList]).toOption = some [] := by
+  decide +kernel
+example : (extractDirectives ["x = 1  # xdoctest: +SKIP".toList]).toOption
+    = some [{ name := "SKIP", inline := true }] := by decide +kernel
+example : extractComments ["x = \"# not a comment\"  # real".toList] = some ["# real".toList] := by
+  decide +kernel
+-- (4e): a directive-looking string body next to a real directive comment: only the comment counts
+example : (extractDirectives ["x = '# xdoctest: +SKIP'  # xdoctest: +IGNORE_WANT".toList]).toOption
+    = some [{ name := "IGNORE_WANT", inline := true }] := by decide +kernel
+example : Plain "  ".toList ∧ ¬ Plain "  # xdoctest: +IGNORE_WANT".toList := by decide
+-- (4f)/(4g): the literal on a continuation line inside brackets, a real directive after it
+example : (lex ["f(".toList]).1.openStr = none := by decide +kernel
+example : (extractDirectives ["f(".toList, "  '# xdoctest: +SKIP',".toList,
+    ")  # xdoctest: +IGNORE_WANT".toList]).toOption = some [{ name := "IGNORE_WANT", inline := true }] := by
+  decide +kernel
+-- (4f) needs `hopen`: inside an open triple-quoted string the body of a "literal" is observable
+-- (line = `"` body `"` ` # b` with body = `'''# a` or `# a`)
+example : (lex ["x = '''".toList]).1.openStr = some '\'' := by decide +kernel
+example : extractComments ["x = '''".toList, "\"'''# a\" # b".toList] = some ["# a\" # b".toList] ∧
+    extractComments ["x = '''".toList, "\"# a\" # b".toList] = some [] := by decide +kernel
+-- (5) on three lines
+example : extractComments ["x = '''# a".toList, "# xdoctest: +SKIP".toList, "c''' # d".toList]
+    = some ["# d".toList] := by decide +kernel
+example : closeTriple '\'' "# a".toList = none ∧ closeTriple '\'' "# xdoctest: +SKIP".toList = none ∧
+    closeTriple '\'' "c''' # d".toList = some " # d".toList := by decide +kernel
+-- counterexample to (2) without `hnt`: empty body followed by the same quote = a triple quote
+example : (scan 0 ("" ++ "'" ++ "" ++ "'" ++ "'# x").toList).comment = none ∧
+    (scan 0 "'# x".toList).comment = some "# x".toList := by decide +kernel
+-- counterexample to (2) for an unterminated quote: the `#` after it does start a comment
+-- (the real `extract_comments(["x = '# a"])` yields `# a` as well)
+example : extractComments ["x = '# a".toList] = some ["# a".toList] := by decide +kernel
 
 end Xdoc.C04
